@@ -364,19 +364,54 @@ def bumpLoop (extra : Nat) : Nat → List BOut → Nat × List BOut
     else
       bumpLoop extra 0 rest
 
-/-- `bumpfee(fee=…)` / `bumpfee(extra_fee=…)`: new outputs, `none` when refused -/
-def bump (oldFee vsize : Nat) (fee extraFee : Nat) (outs : List BOut) : Option (List BOut) :=
-  if oldFee = 0 then none
-  else
-    let extra? : Option Nat :=
-      if fee != 0 then (if fee < oldFee + vsize then none else some (fee - oldFee))
-      else if extraFee != 0 then (if extraFee < vsize then none else some extraFee)
-      else none
-    match extra? with
-    | none => none
-    | some extra =>
-      let r := bumpLoop extra extra outs
-      if r.1 != 0 then none else some r.2
+inductive BumpErr where
+  | zeroFee | tooSmall | notEnough
+  deriving DecidableEq, Repr
+
+/-- the extra fee a call asks for -/
+def bumpExtra (oldFee vsize fee extraFee : Nat) : Except BumpErr Nat :=
+  if oldFee = 0 then .error .zeroFee
+  else if fee != 0 then (if fee < oldFee + vsize then .error .tooSmall else .ok (fee - oldFee))
+  else if extraFee != 0 then (if extraFee < vsize then .error .tooSmall else .ok extraFee)
+  else .error .tooSmall
+
+/-- `Transaction.bumpfee(fee=…)` / `bumpfee(extra_fee=…)`: the new outputs -/
+def bumpE (oldFee vsize fee extraFee : Nat) (outs : List BOut) : Except BumpErr (List BOut) :=
+  match bumpExtra oldFee vsize fee extraFee with
+  | .error e => .error e
+  | .ok extra =>
+    if (bumpLoop extra extra outs).1 != 0 then .error .notEnough else .ok (bumpLoop extra extra outs).2
+
+def bump (oldFee vsize fee extraFee : Nat) (outs : List BOut) : Option (List BOut) :=
+  match bumpE oldFee vsize fee extraFee outs with
+  | .ok l => some l
+  | .error _ => none
+
+/-- `WalletTransaction.add_input_from_wallet`: the first unspent output (in the order of
+`Wallet.utxos()`) that the transaction does not spend yet and that is worth at least `amountMin` -/
+def pickExtraInput (utxos : List Utxo) (current : List Nat) (amountMin : Nat) : Option Utxo :=
+  utxos.find? fun u => !(current.contains u.id) && decide (amountMin ≤ u.value)
+
+/-- the value of an added input goes to the first change output (a new one when there is none) -/
+def creditChange (v : Nat) : List BOut → List BOut
+  | [] => [(v, true)]
+  | (x, true) :: rest => (x + v, true) :: rest
+  | (x, false) :: rest => (x, false) :: creditChange v rest
+
+/-- `WalletTransaction.bumpfee(extra_fee=…)`: when the change outputs cannot pay, one more input
+is taken from the wallet and credited to the change; result = (input ids, outputs) -/
+def walletBump (oldFee vsize extraFee : Nat) (ins : List Nat) (outs : List BOut) (utxos : List Utxo) :
+    Except BumpErr (List Nat × List BOut) :=
+  match bumpE oldFee vsize 0 extraFee outs with
+  | .ok l => .ok (ins, l)
+  | .error .notEnough =>
+    match pickExtraInput utxos ins extraFee with
+    | none => .error .notEnough
+    | some u =>
+      match bumpE oldFee vsize 0 extraFee (creditChange u.value outs) with
+      | .ok l => .ok (ins ++ [u.id], l)
+      | .error e => .error e
+  | .error e => .error e
 
 def sumB (l : List BOut) : Nat := (l.map (·.1)).sum
 
